@@ -1,5 +1,6 @@
 """C01 -- every scheduled event takes effect exactly once, at its configured time."""
 import numpy as np
+from functools import partial
 import z3
 from pyvc.harness import obligation
 from pyvc import sym
@@ -408,3 +409,147 @@ def impulse_boundary(vc):
         e = JulianDate(math.nextafter(float(epoch_k), math.inf))  # the first Julian date delivered in step k+1
         tau = e.convertToScenarioTime(jd0)
         vc.ensure("O-C01-impulse.late-delivery-survives", float(tau) >= k * dt)
+
+
+CEN = "resonaate.tasking.engine.centralized_engine:"
+
+
+@obligation("C01", "priority_effective", ensures=["O-C01-duration.priority-reaches-decision", "O-C01-duration.priority-window"],
+            fns=[CEN + "CentralizedTaskingEngine.assess", CEN + "CentralizedTaskingEngine.calculateRewards", CEN + "CentralizedTaskingEngine.generateTasking",
+                 TP + "TargetTaskPriority.handleEvent"], mode="R", bounded="3 targets x 2 sensors (reward values and the priority factor symbolic)",
+            note="a task-priority event that is active in a step TAKES EFFECT in that step: the reward matrix the decision policy is handed is the computed reward matrix with exactly the named target's row multiplied by the "
+                 "priority (every other row unchanged); the engine asks for the events of its own id over (previous epoch, current epoch]")
+def priority_effective(vc):
+    R = vc.mat("R", 3, 2, -10, 10)
+    prio = vc.real("prio", 0, 10)
+    dt = object if vc.symbolic else float
+    seen = {}
+    asked = []
+    reward = _NS(metrics=[1], normalizeMetrics=lambda mm: mm, calculate=lambda mm: R.copy().reshape(6))
+    decision = _NS(calculate=lambda r, v: (seen.update(r=np.array(r, dtype=dt).copy()), np.zeros((3, 2), dtype=bool))[1])
+    ev = vc.new(TP + "TargetTaskPriority", agent_id=41, priority=prio) if vc.symbolic else vc.fn(TP + "TargetTaskPriority")(agent_id=41, priority=prio)
+
+    def handle(inst, db, scope, lb, ub, logger, scope_instance_id=None):
+        asked.append((inst, scope.name, lb, ub, scope_instance_id))
+        ev.handleEvent(inst)
+    vc.install(CEN + "@handleRelevantEvents", handle)
+    vc.install(CEN + "@TaskingRewardRegistration", lambda *a: "reward-job")
+    vc.install(CEN + "@TaskExecutionRegistration", lambda *a: "exec-job")
+    vc.install(CEN + "@datetimeToJulianDate", lambda d: ("JD", d))
+    ex = _NS(enqueueJob=lambda r: None, join=lambda: None)
+    eng = vc.new(CEN + "CentralizedTaskingEngine", _observations=[], sensor_changes={}, target_list=[40, 41, 42], sensor_list=[1, 2], _reward=reward, _decision=decision, _realtime_obs=True,
+                 _sensor_store={1: "S1", 2: "S2"}, _estimate_store={40: "E40", 41: "E41", 42: "E42"}, _target_store={}, _reward_executor=ex, _task_exec_executor=ex,
+                 _database="DB", logger=SF.NullLogger(), _unique_id=5, _importer_db=None, target_indices={40: 0, 41: 1, 42: 2}, _saved_observations=[], _missed_observations=[],
+                 _saved_missed_observations=[])
+    eng.assess("PRIOR", "NOW")
+    exp = R.copy()
+    exp[1, :] = exp[1, :] * prio
+    vc.ensure("O-C01-duration.priority-reaches-decision", vc.eq(seen["r"], exp, 0 if vc.symbolic else 1e-12))
+    vc.ensure("O-C01-duration.priority-window", len(asked) == 1 and asked[0][0] is eng and asked[0][1] == "TASK_REWARD_GENERATION" and asked[0][2] == ("JD", "PRIOR")
+              and asked[0][3] == ("JD", "NOW") and asked[0][4] == 5)
+
+
+@obligation("C01", "multi_impulse_bounded", ensures=["B-C01-multi.distinct-times", "B-C01-multi.identical-times"],
+            fns=[CEL + "Celestial.propagate", CEL + "Celestial._applyEvents", DI + "ScheduledImpulse.__call__", DI + "ScheduledECIImpulse.getStateChange"], mode="R", native_only=True, samples=40,
+            bounded="BOUNDED stand-in, not a proof: 40 (quick) / 400 (thorough) random cases per run of the real two-body propagator over one 60 s step with two or three impulses on one agent "
+                    "(the interplay of several terminal events inside scipy's solve_ivp is outside the per-event contracts above)",
+            note="several impulses queued on one agent in one step each change the velocity by their delta-v exactly once: compared with a piecewise propagation that adds each delta-v by hand. "
+                 "distinct-times: impulse times at least a microsecond apart; identical-times: two impulses scheduled at bit-identical times")
+def multi_impulse_bounded(vc):
+    from resonaate.dynamics.two_body import TwoBody
+    from resonaate.dynamics.integration_events.scheduled_impulse import ScheduledECIImpulse
+    vc.install(DI + "@EventStack", _NS(pushEvent=lambda r: None))
+    rng = np.random.default_rng(vc.int("seed", 0, 10 ** 9))
+    x0 = np.array([7000.0, 0.0, 0.0, 0.0, 7.546, 0.0]) + np.concatenate([rng.normal(size=3) * 50, rng.normal(size=3) * 0.05])
+    n = vc.int("impulses", 2, 3)
+
+    def run(times):
+        dvs = [rng.normal(size=3) * 1e-3 for _ in times]
+        evs = [ScheduledECIImpulse(float(t), dv.copy(), 1) for t, dv in zip(times, dvs)]
+        got = TwoBody().propagate(0.0, 60.0, x0.copy(), scheduled_events=evs)
+        s, now = x0.copy(), 0.0
+        for t, dv in sorted(zip(times, dvs), key=lambda p: p[0]):
+            if t > now + 1e-9:
+                s = TwoBody().propagate(now, float(t), s)
+                now = float(t)
+            s = s.copy()
+            s[3:] += dv
+        ref = TwoBody().propagate(now, 60.0, s)
+        return float(np.linalg.norm(got[3:] - ref[3:])), float(np.linalg.norm(got[:3] - ref[:3]))
+    times = sorted(rng.uniform(1.0, 59.0, size=n))
+    for i in range(1, n):
+        times[i] = max(times[i], times[i - 1] + 1e-6)
+    ev, ep = run(times)
+    vc.ensure("B-C01-multi.distinct-times", ev < 1e-8 and ep < 1e-6)
+    t = float(rng.uniform(1.0, 59.0))
+    ev, ep = run([t, t])
+    vc.ensure("B-C01-multi.identical-times", ev < 1e-8 and ep < 1e-6)
+
+
+@obligation("C01", "restart", ensures=["O-C01-restart.impulse-cannot-refire", "O-C01-restart.burn-switch-cannot-refire", "O-C01-restart.progress"],
+            fns=[CEL + "Celestial.propagate", DI + "ScheduledImpulse.__call__", "resonaate.dynamics.integration_events.finite_thrust:ScheduledFiniteThrust.__call__"], mode="R",
+            assumes=IVP + ["scipy solve_ivp is replaced by its contract: it integrates from the given start, stops at the reported root of a terminal event whose function is zero at or changes sign after the start, "
+                           "and reports that root within the event function's zero plateau of the event time",
+                           "numpy.spacing(x) is one unit in the last place: 0 < spacing(x) <= 2.3e-16 |x| + 1e-300"],
+            note="the restart loop of propagate(): after the integrator stopped on an event at (about) time tau, the next integration starts at a time t' > stop at which that event's function is NOT zero and has the sign "
+                 "of 'already passed' - so the same impulse (or burn switch) cannot fire a second time, whatever the magnitude of tau (the zero plateau of the event functions is 1e-15 s wide, the floating-point spacing is "
+                 "smaller than that during the first 8 s of a scenario and denormal at t = 0), and the loop makes progress")
+def restart(vc):
+    import resonaate.dynamics.integration_events.finite_thrust as ft
+    tau = vc.real("tau", 0, 1e7)          # event time, scenario seconds (0 included: an event at the very start)
+    err = vc.real("root_err", -1e-15, 1e-15)
+    t0 = vc.real("t0", 0, 1e7)
+    span = vc.real("span", 1e-3, 1e5)
+    if vc.symbolic:
+        vc.assume(vc.And(t0 <= tau, tau < t0 + span - 1e-6, vc.Or(tau + err >= t0, err == 0)))
+    else:
+        # native sampling: early scenario times (where the spacing is below the plateau width) are the interesting ones
+        t0 = [0.0, 0.0, 2.0, 100.0, t0][vc.int("t0_kind", 0, 4)]
+        tau = t0 + [0.0, 1.0][vc.int("not_at_start", 0, 1)] * vc.real("frac", 0, 0.99) * min(span - 1e-3, [10.0, 1e5][vc.int("far", 0, 1)])
+        vc.assume(t0 <= tau < t0 + span - 1e-6)
+        err = 0.0
+    tf = t0 + span
+    root = tau + err
+    starts = []
+    kind = {}
+
+    def solve_ivp_contract(fun, t_span, y0, method=None, rtol=None, atol=None, events=None, **kw):
+        starts.append(t_span[0])
+        y = np.asarray(y0).reshape(-1, 1)
+        if len(starts) == 1:  # first call: the event fires at its root
+            return _NS(y=y, t=np.array([t_span[0], root], dtype=object if vc.symbolic else float), t_events=[np.array([root], dtype=object if vc.symbolic else float)], status=1, success=True)
+        # later calls: would this event be (re-)detected at the start of the new integration?
+        kind["g_at_restart"] = events[0](t_span[0], None)
+        return _NS(y=y, t=np.array([t_span[0], t_span[1]], dtype=object if vc.symbolic else float), t_events=[np.array([])], status=0, success=True)
+    vc.install(CEL + "@solve_ivp", solve_ivp_contract)
+    vc.install(DI + "@EventStack", _NS(pushEvent=lambda r: None))
+    vc.install("resonaate.dynamics.integration_events.finite_thrust:@EventStack", _NS(pushEvent=lambda r: None))
+    x0 = np.array([7000.0, 0, 0, 0, 7.5, 0])
+    # (1) impulse
+    if vc.symbolic:
+        vc.stub(CEL + "@isinstance", lambda o, t: False if t is ft.ScheduledFiniteThrust else isinstance(o, t))
+        imp = vc.new(DI + "ScheduledECIImpulse", time=tau, thrust=np.zeros(6), agent_id=1)
+        dyn = vc.new("resonaate.dynamics.special_perturbations:SpecialPerturbations", finite_thrust=None, _method="RK45", _differentialEquation=lambda *a, **k: None)
+    else:
+        from resonaate.dynamics.two_body import TwoBody
+        from resonaate.dynamics.integration_events.scheduled_impulse import ScheduledECIImpulse
+        imp = ScheduledECIImpulse(tau, np.zeros(3), 1)
+        dyn = TwoBody()
+    dyn.propagate(t0, tf, x0.copy(), scheduled_events=[imp])
+    g = kind.get("g_at_restart")
+    vc.ensure("O-C01-restart.impulse-cannot-refire", vc.And(len(starts) == 2, g is not None and g > 0))
+    vc.ensure("O-C01-restart.progress", vc.And(len(starts) == 2, starts[1] > root if len(starts) == 2 else False))
+    # (2) a finite burn that starts at tau (switch-on) - the event function after the switch watches the end, which is far away
+    del starts[:]
+    kind.clear()
+    if vc.symbolic:
+        C = vc.cls("resonaate.dynamics.integration_events.finite_thrust:ScheduledFiniteBurn")
+        vc.stub(CEL + "@isinstance", lambda o, t: (t is ft.ScheduledFiniteThrust and isinstance(o, C)) or isinstance(o, t))
+        burn = vc.new("resonaate.dynamics.integration_events.finite_thrust:ScheduledFiniteBurn", start_time=tau, end_time=tau + 1e6, thrust_func="F", agent_id=1, _thrusting=False)
+        dyn = vc.new("resonaate.dynamics.special_perturbations:SpecialPerturbations", finite_thrust=None, _method="RK45", _differentialEquation=lambda *a, **k: None)
+    else:
+        burn = ft.ScheduledFiniteBurn(tau, tau + 1e6, partial(ft.eciBurn, acc_vector=np.zeros(3)), 1)
+        dyn = TwoBody()
+    dyn.propagate(t0, tf, x0.copy(), scheduled_events=[burn])
+    g = kind.get("g_at_restart")
+    vc.ensure("O-C01-restart.burn-switch-cannot-refire", vc.And(len(starts) == 2, g is not None and g > 0))
